@@ -428,7 +428,7 @@ func genEP(t *rapid.T) EP {
 	}
 	bigOdds := 400 // the 65535/65536 shapes are enumerated on every run; generated ones add variety
 	if pbt.Thorough() {
-		bigOdds = 60
+		bigOdds = 100
 	}
 	small := func(m *ref.Tx) { // keep replicated elements short
 		for i := range m.In {
@@ -520,7 +520,7 @@ func epShape(side string, count int, ext bool, delta int) EP {
 
 func TestEntryPoints(t *testing.T) {
 	pbt.Run(t, pbt.Sub[EP]{
-		Name: "entrypoints", Quick: 9000, Thorough: 120000,
+		Name: "entrypoints", Quick: 7000, Thorough: 60000,
 		Gen:      genEP,
 		Check:    checkEP,
 		EnumDesc: "one fixed transaction with its inputs, its outputs or the list of transactions replicated to {252, 253} x {standard, extended} x list count {exact, one fewer, one more} and to {65535, 65536} (standard, exact count)",
